@@ -620,6 +620,94 @@ def numpy_idioms(tree: ast.Module) -> ast.AST:
     return ast.fix_missing_locations(_NumpyIdioms(alias).visit(tree))
 
 
+def _pure_chain(e: ast.AST) -> bool:
+    """a name / attribute / constant-subscript chain: evaluating it twice gives the same object and has no effect"""
+    if isinstance(e, ast.Name):
+        return True
+    if isinstance(e, ast.Attribute):
+        return _pure_chain(e.value)
+    if isinstance(e, ast.Subscript):
+        return _pure_chain(e.value) and (isinstance(e.slice, (ast.Constant, ast.Name)) or _pure_chain(e.slice))
+    return False
+
+
+class _Literals(ast.NodeTransformer):
+    """Literal containers are written out: `[f(x) for x in (a, b)]` -> `[f(a), f(b)]` (comprehension over a literal
+    tuple/list with a plain name target and no condition), `[a] + [b, c]` -> `[a, b, c]`, and
+    `u, v = X` with X a pure name/attribute/subscript chain -> `u = X[0]; v = X[1]`."""
+    def visit_ListComp(self, node):
+        self.generic_visit(node)
+        if len(node.generators) == 1:
+            g = node.generators[0]
+            if isinstance(g.iter, (ast.Tuple, ast.List)) and isinstance(g.target, ast.Name) and not g.ifs and not g.is_async \
+                    and len(g.iter.elts) <= 6 and not any(isinstance(x, ast.Starred) for x in g.iter.elts):
+                import copy as _c
+                elts = []
+                for it in g.iter.elts:
+                    class _S(ast.NodeTransformer):
+                        def visit_Name(self, n, it=it, t=g.target.id):
+                            return _c.deepcopy(it) if n.id == t and isinstance(n.ctx, ast.Load) else n
+                    elts.append(_S().visit(_c.deepcopy(node.elt)))
+                return ast.copy_location(ast.List(elts, ast.Load()), node)
+        return node
+
+    def visit_BinOp(self, node):
+        self.generic_visit(node)
+        if isinstance(node.op, ast.Add) and isinstance(node.left, ast.List) and isinstance(node.right, ast.List):
+            return ast.copy_location(ast.List(node.left.elts + node.right.elts, ast.Load()), node)
+        return node
+
+    def _fix(self, body):
+        out = []
+        # `t = list(E)` / `t = [..]` directly followed by `t.sort(...)`  ->  `t = sorted(E, ...)`
+        merged = []
+        i = 0
+        while i < len(body):
+            a = body[i]
+            nx = body[i + 1] if i + 1 < len(body) else None
+            if isinstance(a, ast.Assign) and len(a.targets) == 1 and isinstance(a.targets[0], ast.Name) and isinstance(nx, ast.Expr) \
+                    and isinstance(nx.value, ast.Call) and isinstance(nx.value.func, ast.Attribute) and nx.value.func.attr == "sort" \
+                    and isinstance(nx.value.func.value, ast.Name) and nx.value.func.value.id == a.targets[0].id and not nx.value.args:
+                src = a.value
+                if isinstance(src, ast.Call) and isinstance(src.func, ast.Name) and src.func.id == "list" and len(src.args) == 1 and not src.keywords:
+                    src = src.args[0]
+                if isinstance(a.value, (ast.List, ast.ListComp)) or src is not a.value:
+                    a.value = ast.copy_location(ast.Call(ast.Name("sorted", ast.Load()), [src], nx.value.keywords), a.value)
+                    merged.append(a)
+                    i += 2
+                    continue
+            merged.append(a)
+            i += 1
+        body = merged
+        for s in body:
+            if isinstance(s, ast.Assign) and len(s.targets) == 1 and isinstance(s.targets[0], ast.Tuple) \
+                    and all(isinstance(t, ast.Name) for t in s.targets[0].elts) and _pure_chain(s.value) \
+                    and isinstance(s.value, (ast.Subscript, ast.Attribute)) \
+                    and not any(isinstance(x, ast.Name) and x.id in {t.id for t in s.targets[0].elts} for x in ast.walk(s.value)):
+                import copy as _c
+                for i, t in enumerate(s.targets[0].elts):
+                    out.append(ast.copy_location(ast.Assign([ast.Name(t.id, ast.Store())],
+                                                            ast.Subscript(_c.deepcopy(s.value), ast.Constant(i), ast.Load())), s))
+            else:
+                out.append(s)
+        return out
+
+    def generic_visit(self, node):
+        super().generic_visit(node)
+        for fld in ("body", "orelse", "finalbody"):
+            b = getattr(node, fld, None)
+            if isinstance(b, list) and b and isinstance(b[0], ast.stmt):
+                setattr(node, fld, self._fix(b))
+        if isinstance(node, ast.Try):
+            for h in node.handlers:
+                h.body = self._fix(h.body)
+        return node
+
+
+def literal_forms(tree: ast.AST) -> ast.AST:
+    return ast.fix_missing_locations(_Literals().visit(tree))
+
+
 class AnalysisError(Exception):
     """Anchor vanished / unparsable file / floor not met: exit 2, never a pass."""
 
@@ -748,6 +836,7 @@ class Repo:
         self.modules: Dict[str, Module] = {}
         self.funcs: Dict[str, Func] = {}
         self.classes: Dict[str, Class] = {}
+        self.renamed: Dict[str, str] = {}           # new name -> reference name, for functions that were merely renamed
         self.inlined: Dict[str, List[str]] = {}     # module -> helpers (absent from the reference tree) spliced into their callers
         self._load()
 
@@ -756,6 +845,7 @@ class Repo:
         pkg_dir = os.path.join(self.root, self.PKG)
         if not os.path.isdir(pkg_dir):
             raise AnalysisError("package directory %s not found" % pkg_dir)
+        raw: Dict[str, tuple] = {}
         for dirpath, dirnames, filenames in os.walk(pkg_dir):
             dirnames[:] = sorted(d for d in dirnames
                                  if d not in ("__pycache__", "data"))
@@ -770,16 +860,18 @@ class Repo:
                 try:
                     with open(path, encoding="utf-8") as fh:
                         src = fh.read()
-                    tree = numpy_idioms(strip_inert(ast.parse(src, filename=path)))
-                    from .inline import inline_new_helpers, known_functions
-                    tree, inl, skipped = inline_new_helpers(tree, mod, known_functions())
-                    if inl:
-                        self.inlined[mod] = sorted(set(inl))
-                    tree = orient_comparisons(inline_adjacent_temps(forward_single_use_temps(structure_guards(tree))))
+                    raw[mod] = (path, rel, src, ast.parse(src, filename=path))
                 except (SyntaxError, OSError, UnicodeDecodeError) as exc:
                     raise AnalysisError("cannot parse %s: %s" % (rel, exc))
-                m = Module(mod, path, rel, src, tree)
-                self.modules[mod] = m
+        from .inline import inline_new_helpers, known_functions, undo_renames
+        self.renamed = undo_renames({mod: v[3] for mod, v in raw.items()})
+        for mod, (path, rel, src, tree) in raw.items():
+            tree = literal_forms(numpy_idioms(strip_inert(tree)))
+            tree, inl, skipped = inline_new_helpers(tree, mod, known_functions())
+            if inl:
+                self.inlined[mod] = sorted(set(inl))
+            tree = orient_comparisons(inline_adjacent_temps(forward_single_use_temps(structure_guards(tree))))
+            self.modules[mod] = Module(mod, path, rel, src, tree)
         if not self.modules:
             raise AnalysisError("no modules parsed under %s" % pkg_dir)
         keywords_to_positional([m.node for m in self.modules.values()])
